@@ -76,6 +76,16 @@ def stateless(ctx, tree, key_prefix):
                             ctx.undecided("%s:%s:%s" % (key_prefix, g.name, recv), ctx.where(g, wr.node), "%s keeps `%s` between calls (added since the review); it is handed out again only under a test that reads the object's state, or this rule cannot read when: no verdict on whether it can go stale"
                                           % (g.qualname.split(".", 3)[-1], m_.group(1)))
                             continue
+                m2_ = _re.match(r"^([A-Za-z_]\w*)[\[.]", recv)
+                if m2_ is not None and "free variable" in (wr.why or ""):
+                    # a module-level table the reviewed tree did not have: a memo added since the review, not state of the
+                    # transaction or the checker (objects of the reviewed tree changed at run time are reported by the call tree)
+                    from sa import shared_state as _ss
+                    objs_, _w, _wr = _ss.reviewed()
+                    if m2_.group(1) in g.module.assigns and (g.module.name, m2_.group(1)) not in objs_:
+                        ctx.undecided("%s:%s:%s" % (key_prefix, g.name, recv), ctx.where(g, wr.node), "%s fills the module-level table `%s`, added since the review: a memo, not state of the transaction or the checker; no verdict here on whether it can go stale"
+                                      % (g.qualname.split(".", 3)[-1], m2_.group(1)))
+                        continue
                 ctx.bad("%s:%s:%s" % (key_prefix, g.name, recv), ctx.where(g, wr.node),
                         "%s writes `%s` (receiver: %s): validation keeps state on the transaction or on the checker, so a later validation of the same "
                         "object can differ from the verdict of a fresh object" % (g.qualname.split(".", 3)[-1], recv, wr.why),
